@@ -251,6 +251,7 @@ int main(int argc, char **argv)
 	thorough = a.thorough;
 	mk_fc();
 	xp_init(hc_san_as ? hc_san_as : "C13", a.tier, 1024, a.budget_s);
+	xp_guard(hc_san_as, &W.cur, 1);
 	/* self-test of the grammar */
 	if (allowed_command("PATH=/sbin:/bin ifconfig dns0 10.0.0.2 10.0.0.2 netmask 255.255.255.224") != 1 || allowed_command("PATH=/sbin:/bin ifconfig dns0 mtu 1130") != 2 ||
 	    allowed_command("PATH=/sbin:/bin ifconfig dns0 10.0.0.2 ;id 10.0.0.2 ;id netmask 255.255.255.224") || allowed_command("PATH=/sbin:/bin ifconfig dns0 mtu 200") ||
